@@ -91,7 +91,7 @@ PathRun(d, steps, i) ==
              \* an unsupported value leaves the document unchanged
              d2 == IF v = Err THEN d ELSE Set(d, steps[i].path, v)
          IN PathStepOk(d2, steps[i]) /\ PathRun(d2, steps, i + 1)
-DocPathOk(e) == PathRun(EmptyObj, e.steps, 1)
+DocPathOk(e) == PathRun(e.init, e.steps, 1)
 
 (* C15 *)
 CursorOk(e) ==
